@@ -59,7 +59,11 @@ func (s *Store) Get(key string) ([]byte, error) {
 	row := s.db.QueryRow(`SELECT sum FROM refs WHERE name = ?`, key)
 	sum := make([]byte, 16)
 	if err := row.Scan(&sum); err != nil {
-		return nil, ref.ErrKeyNotFound
+		if err == sql.ErrNoRows {
+			return nil, ref.ErrKeyNotFound
+		}
+		// a failed query is not an absent ref
+		return nil, err
 	}
 	return sum, nil
 }
